@@ -20,6 +20,7 @@ type SolverCfg struct {
 	Seed    int
 	WorkDir string
 	Workers int
+	FailFast bool // stop starting new obligations after the first undischarged one (corpus runs)
 	KeepQueries bool
 	Phase1  bool
 }
@@ -127,7 +128,22 @@ func firstLine(s string) string {
 	return s
 }
 
+// failFast (must-fail corpus runs only): once an obligation has come back undischarged after the full sequence of
+// attempts, the obligations not yet started are skipped; the run reports what it found and exits 1.
+var failFastHit int32
+
 func (e *Engine) solveOne(o *Obligation, axioms []axFact, cfg *SolverCfg, idx int) {
+	if cfg.FailFast && atomic.LoadInt32(&failFastHit) != 0 {
+		o.Status, o.Solver, o.Output = "skipped", "-", "not attempted: an earlier obligation of this fail-fast run was not discharged"
+		return
+	}
+	if cfg.FailFast && cfg.Phase1 && !o.Cover {
+		defer func() {
+			if o.Status != "unsat" {
+				atomic.StoreInt32(&failFastHit, 1)
+			}
+		}()
+	}
 	if cfg.Phase1 && !o.Cover {
 		// cheap first attempt with one solver; the full race only for what it does not decide
 		c1 := *cfg
@@ -147,7 +163,7 @@ func (e *Engine) solveOne(o *Obligation, axioms []axFact, cfg *SolverCfg, idx in
 		// before it is reported: solver search is sensitive to incidental details of the query text. Bounded, so
 		// that a tree on which many obligations fail is not slowed down.
 		for _, ds := range []int{7919, 104729} {
-			if o.Status == "unsat" || o.Status == "sat" || o.Status == "error" {
+			if o.Status == "unsat" || o.Status == "sat" || o.Status == "error" || cfg.FailFast {
 				break
 			}
 			if atomic.AddInt32(&seedRetries, 1) > maxSeedRetries {
